@@ -19,9 +19,14 @@ MANIFEST = {
             "function are positive integer multiples of the gradient raster, flat_time >= 0, amplitude and both ramp "
             "slopes respect the effective limits (overrides else system) up to the code's eps slack, and an area-only "
             "request is at most two rasters longer than ANY continuous-time trapezoid within the limits (AM-GM "
-            "argument without square roots).  Every transcribed expression and the tolerance eps are re-read from the "
-            "source on each run (fail-closed); the extracted model is run against make_trapezoid on ~6000 (quick) / "
-            "~300000 (thorough) calls over the seven argument sets, an invalid-argument stream (error class compared) "
+            "argument without square roots); ramps chosen on the other argument sets are the shortest raster "
+            "multiples respecting max_slew (exactly, no slack); the rendered piecewise-linear waveform has the area "
+            "field as its integral and respects the amplitude and slope limits AT EVERY TIME; and two bracketing "
+            "theorems say exactly when binary64 rounding in front of math.ceil can change a raster count (by one, "
+            "only inside an explicit band next to an integer / perfect square) - the harness admits a one-raster "
+            "divergence of model and code only inside those bands.  Every transcribed expression and the tolerance eps are re-read from the "
+            "source on each run (fail-closed); the extracted model is run against make_trapezoid on ~6400 (quick) / "
+            "~320000 (thorough) calls over the seven argument sets, an invalid-argument stream (error class compared) "
             "and an exact-threshold corpus; the property predicate is evaluated with exact Fractions on every "
             "returned event.",
     'note': 'Trusted: Coq kernel; translator patterns for make_trapezoid.py; extraction (ExtrOcamlBasic) + driver; '
@@ -281,6 +286,11 @@ def sibling(rng, case):
     how = rng.choice(['raster', 'raster', 'limits', 'same'])
     if how == 'raster':
         c['sys']['raster'] = rng.choice([r for r in (4e-6, 5e-6, 10e-6, 20e-6) if r != c['sys']['raster']])
+        if c['kind'] == 'area_dur':
+            # the guard band of the requested duration (at least one raster above the minimum) depends on the raster
+            G, S, R = eff_limits(c)
+            n = math.ceil(cont_optimum(c['args']['area'], S, G) / R + 2 + 1e-6) + rng.choice([1, 2, 3, 10, 100])
+            c['args']['duration'] = max(c['args']['duration'], tm(n * R))
     elif how == 'limits':
         c['sys']['max_slew'] = c['sys']['max_slew'] * rng.choice([2, 4])
         if c['sys']['slew_unit'] == 'Hz/m/s':
@@ -782,6 +792,12 @@ def oracle(ctx, case, vals):
         ctx.fail('C11/' + sig_, case, {k: (float(v) if isinstance(v, Fraction) else v) for k, v in detail.items()})
     wave_area = amp * (rise / 2 + flat + fall / 2)
     only = lambda k: a[k] is not None and all(a[j] is None for j in ('area', 'flat_area', 'amplitude') if j != k)
+    # a requested flat_time in (-eps, 0) is treated by the code as rounding noise and replaced by 0; the exact
+    # clauses on area / flat area / flat time are stated for requests with flat_time >= 0 (see Props/C11.v)
+    noise_flat = a['flat_time'] is not None and -1e-9 < a['flat_time'] < 0
+    if noise_flat:
+        ctx.count('oracle.requested_flat_time_in_clamp_band')
+        only = lambda k: False
     # requested area / flat area / amplitude
     if only('area') and not close(wave_area, F(a['area']), F(a['area'])):
         bad('area', requested=a['area'], realised=wave_area)
@@ -802,7 +818,7 @@ def oracle(ctx, case, vals):
                 bad('duration', requested=a['duration'], returned=rise + flat + fall, with_flat_time=a['flat_time'])
         elif not honoured:
             ctx.count('finding.duration_ignored_with_flat_time')
-    if a['flat_time'] is not None and not close(flat, F(a['flat_time']), F(a['flat_time'])):
+    if a['flat_time'] is not None and not noise_flat and not close(flat, F(a['flat_time']), F(a['flat_time'])):
         bad('flat_time', requested=a['flat_time'], returned=flat)
     area_only = only('area') and a['duration'] is None and a['flat_time'] is None
     if not area_only:
